@@ -357,7 +357,8 @@ def randomized_svd_stub(M, n_components, **kwargs):
         from sklearn.utils.extmath import randomized_svd as real
 
         return real(M, n_components, **kwargs)
-    U, s, VT = _svd_generic(M, int(n_components), False, "randomized_svd")
+    # sklearn does not refuse n_components > min(shape): it returns min(shape) triplets (probed) - the stub must not be stricter than the routine
+    U, s, VT = _svd_generic(M, min(int(n_components), min(M.shape)), False, "randomized_svd")
     cur().stub_log[-1]["kwargs"] = dict(kwargs, n_components=n_components)
     return U, s, VT
 
